@@ -15,6 +15,7 @@ import ChythonModel.Proofs.C06Exchange
 import ChythonModel.Proofs.C06Min
 import ChythonModel.Model.C06Pid
 import ChythonModel.Proofs.C06PidMain
+import ChythonModel.Proofs.C06PidBfsFuel
 /-!
 # C06 — ring perception returns a minimum cycle basis that ring marks agree with
 
@@ -148,6 +149,11 @@ theorem bfs_paths_are_walks (g : Adj) (ps : List Path) (h : ChythonModel.Model.C
     ∀ p ∈ ps, Walk g p ∧ 2 ≤ p.length :=
   bfsPaths_walks g ps h
 
+/-- the `while True:` loop of `_bfs` ends within the model's fuel on every non-empty graph (the only other way for the model
+to answer `none` is Python's `KeyError` of `set().pop()` on an empty graph) -/
+theorem bfs_terminates (g : Adj) (hne : g ≠ []) : (ChythonModel.Model.C06.bfsPaths g).isSome = true :=
+  bfsPaths_isSome g hne
+
 /-- `_make_pid`: whatever is stored under `pid1[i][j]` / `pid2[i][j]` (first loop and the Floyd–Warshall-like triple loop
 with its path concatenations) is a walk of the graph from `i` to `j` -/
 theorem make_pid_stores_walks (g : Adj) (hsym : symAdj g = true) (paths : List Path)
@@ -196,6 +202,22 @@ theorem sssr_model_rings_are_simple_cycles (m : ChythonModel.Model.Mol) (hwf : m
   obtain ⟨h1, h2, rc, h3, h4⟩ := sssrModel_spec m hwf h
   refine ⟨fun r hr => ⟨h1 r hr, ring_bonds_exist hwf (h1 r hr)⟩, h2, rc, h3, ?_, h4, by omega⟩
   rw [← ringsCount_eq_cyclomatic m hwf]; exact h3
+
+/-- **what is left to the per-run checker**: on the ring list the model of `mol.sssr` returns, `checkSssr` accepts exactly when
+the rings are GF(2)-independent — the simple-cycle and count clauses hold by `sssr_model_rings_are_simple_cycles`
+(`rings_count ≥ 0` is the only side condition; it is what `rings_count_cyclomatic` computes for a real molecule) -/
+theorem sssr_model_checker_verdict_is_independence (m : ChythonModel.Model.Mol) (hwf : m.WF = true) (out : List Ring)
+    (h : sssrModel m = .ok out) (hnn : ∀ rc, ringsCount m = some rc → 0 ≤ rc) :
+    checkSssr (notSpecial m) out = true ↔ Independent (out.map (ringVec (edgeList (notSpecial m)))) := by
+  constructor
+  · exact fun hc => (check_sssr_sound _ _ hc).2.1
+  · intro hi
+    obtain ⟨h1, _, rc, h3, h4, h5, _⟩ := sssr_model_rings_are_simple_cycles m hwf out h
+    refine check_sssr_complete _ _ (fun r hr => (h1 r hr).1) hi ?_
+    have := hnn rc h3
+    rw [h4]
+    congr 1
+    omega
 
 /-- non-vacuous: bicyclo[1.1.0]butane with a methyl group (the tail is pruned, four candidates are generated, two rings are
 kept); and a three-ring whose second ring would close over a coordinate bond: one ring is reported -/
